@@ -114,7 +114,16 @@ fn is_constant(expr: &Expr) -> bool {
         Expr::Object(ObjectLit { props, .. }) => props.iter().all(|prop| {
             if let PropOrSpread::Prop(prop) = prop {
                 match &**prop {
-                    Prop::KeyValue(KeyValueProp { value, .. }) => is_constant(value),
+                    Prop::KeyValue(KeyValueProp { key, value }) => {
+                        is_constant(value)
+                            && match key {
+                                // `{ [k]: 1 }` varies with `k`
+                                PropName::Computed(ComputedPropName { expr, .. }) => {
+                                    is_constant(expr)
+                                }
+                                _ => true,
+                            }
+                    }
                     Prop::Shorthand(ident) => &ident.sym == "undefined",
                     _ => false,
                 }
